@@ -128,6 +128,13 @@ def Op.height : Op → Nat
   | .un _ c _ _ => c.height + 1
   | .bin _ a b _ => max a.height b.height + 1
 
+/-- the leaves that have been started and not yet completed -/
+def Op.pending : Op → List Nat
+  | .const _ _ => []
+  | .leaf i ph _ => if ph = .running then [i] else []
+  | .un _ c _ _ => c.pending
+  | .bin _ a b _ => a.pending ++ b.pending
+
 abbrev Res := Op × List Out × Option Outcome
 
 def ConstKind.outcome (k : ConstKind) (env : Env) : Outcome :=
